@@ -166,18 +166,23 @@ Proof.
 Qed.
 
 Section Integral.
-(* an abstract integral over the real line (applied to functions of one variable) *)
+(* PARTIAL.  J stands for the integral over the real line.  All that is assumed about it: it respects
+   pointwise equality, a constant factor can be pulled out, and the two or three normal densities that
+   actually occur in the profile at hand integrate to one ([norm_at], together with the exactness of
+   the square root at these points).  No hypothesis quantifies over all variances, no translation
+   invariance is assumed (only the shifted density of the pulsed Gaussian itself).
+   What remains unproved: that the Lebesgue integral is such a J (the Gaussian integral) and that the
+   iterated integral is the area / volume integral (Fubini). *)
 Variable J : (Q -> Q) -> Q.
 Hypothesis J_ext : forall f g, (forall t, f t == g t) -> J f == J g.
 Hypothesis J_lin : forall k f, J (fun t => k * f t) == k * J f.
-Hypothesis J_shift : forall f m, J (fun t => f (t - m)) == J f.
-Hypothesis J_phi : forall v, 0 < v -> J (phi v) == 1.     (* the Gaussian integral: classical analysis, assumed *)
-Hypothesis Hsqrt : forall v, 0 < v -> sqrt_at v.          (* idealised square root (real numbers), assumed *)
 
-Lemma J_scaled k v : 0 < v -> J (fun t => k * phi v t) == k.
-Proof. intro H. rewrite J_lin, (J_phi v H). ring. Qed.
+Definition norm_at (v : Q) : Prop := J (phi v) == 1 /\ sqrt_at (2 * pi * v).
 
-Lemma J_two n a b : 0 < a -> 0 < b ->
+Lemma J_scaled k v : J (phi v) == 1 -> J (fun t => k * phi v t) == k.
+Proof. intro H. rewrite J_lin, H. ring. Qed.
+
+Lemma J_two n a b : J (phi a) == 1 -> J (phi b) == 1 ->
   J (fun x => J (fun y => n * (phi a x * phi b y))) == n.
 Proof.
   intros Ha Hb.
@@ -187,60 +192,71 @@ Proof.
     apply J_scaled; assumption.
 Qed.
 
+(* the normalisation facts needed for the cross-section at axial position z *)
+Definition cross_hyps (k : pkind) (v : pvals) (z : Q) : Prop :=
+  match k with
+  | KBiv => norm_at (sq (v_sx v)) /\ norm_at (sq (v_sy v))
+  | KBeam => norm_at (beam_var pi (v_wl v) (v_wz v) (v_sw v) z)
+  | _ => True
+  end.
 
 (* cross-section integral = E / (c tau) at every axial position z, for ConstantBivariateGaussian and
    GaussianBeamAxisymmetric *)
-Theorem cross_section_integral_partial c k v z : (k = KBiv \/ k = KBeam) -> valid k v = true ->
+Theorem cross_section_integral_partial c k v z : (k = KBiv \/ k = KBeam) -> valid k v = true -> cross_hyps k v z ->
   J (fun x => J (fun y => ed_of (fresh_fun c k v) x y z)) == v_pe v / (c * v_pl v).
 Proof.
-  intros [-> | ->] Hv.
-  - assert (Hx := valid_pos _ _ Fsx Hv ltac:(cbn; tauto)). assert (Hy := valid_pos _ _ Fsy Hv ltac:(cbn; tauto)).
+  intros [-> | ->] Hv Hn; cbn [cross_hyps] in Hn.
+  - destruct Hn as [[Na Aa] [Nb Ab]].
+    assert (Hx := valid_pos _ _ Fsx Hv ltac:(cbn; tauto)). assert (Hy := valid_pos _ _ Fsy Hv ltac:(cbn; tauto)).
     cbn [get] in Hx, Hy. cbn [fresh_fun]. unfold ed_of. cbn [ed_eval].
     rewrite (J_ext _ (fun x => J (fun y => v_pe v / (c * v_pl v) * (phi (sq (v_sx v)) x * phi (sq (v_sy v)) y)))).
-    + apply J_two; apply sq_pos; lra.
-    + intro x. apply J_ext. intro y. rewrite biv_factor by (try assumption; apply Hsqrt; unfold sq; pos). reflexivity.
-  - assert (Hs := valid_pos _ _ Fsw Hv ltac:(cbn; tauto)). cbn [get] in Hs.
+    + apply J_two; assumption.
+    + intro x. apply J_ext. intro y. rewrite (biv_factor (v_sx v) (v_sy v) x y Hx Hy Aa Ab). reflexivity.
+  - destruct Hn as [Na Aa].
+    assert (Hs := valid_pos _ _ Fsw Hv ltac:(cbn; tauto)). cbn [get] in Hs.
     cbn [fresh_fun]. unfold ed_of. cbn [ed_eval].
-    pose proof (beam_var_pos (v_wl v) (v_wz v) (v_sw v) z Hs) as Hb.
     rewrite (J_ext _ (fun x => J (fun y => v_pe v / (c * v_pl v) *
                (phi (beam_var pi (v_wl v) (v_wz v) (v_sw v) z) x * phi (beam_var pi (v_wl v) (v_wz v) (v_sw v) z) y)))).
     + apply J_two; assumption.
     + intro x. apply J_ext. intro y.
-      assert (A : sqrt_at (2 * pi * beam_var pi (v_wl v) (v_wz v) (v_sw v) z)) by (apply Hsqrt; apply Qmult_lt_0_compat; [lra | exact Hb]).
-      rewrite (beam_factor (v_wl v) (v_wz v) (v_sw v) x y z Hs A). reflexivity.
+      rewrite (beam_factor (v_wl v) (v_wz v) (v_sw v) x y z Hs Aa). reflexivity.
 Qed.
 
 (* TrivariateGaussian (sigma_z = tau c): the integral over the whole volume = E *)
-Theorem trivariate_volume_integral_partial c v : 0 < c -> valid KTri v = true ->
+Definition volume_hyps (c : Q) (v : pvals) : Prop :=
+  norm_at (sq (v_sx v)) /\ norm_at (sq (v_sy v)) /\ sqrt_at (2 * pi * sq (v_pl v * c)) /\
+  J (fun t => phi (sq (v_pl v * c)) (t - v_mz v)) == 1.      (* the density N(mean_z, sigma_z^2) integrates to one *)
+
+Theorem trivariate_volume_integral_partial c v : 0 < c -> valid KTri v = true -> volume_hyps c v ->
   J (fun x => J (fun y => J (fun z => ed_of (fresh_fun c KTri v) x y z))) == v_pe v.
 Proof.
-  intros Hc Hv.
+  intros Hc Hv ([Na Aa] & [Nb Ab] & Az & Nz).
   assert (Hx := valid_pos _ _ Fsx Hv ltac:(cbn; tauto)). assert (Hy := valid_pos _ _ Fsy Hv ltac:(cbn; tauto)).
   assert (Hl := valid_pos _ _ Fpl Hv ltac:(cbn; tauto)). cbn [get] in Hx, Hy, Hl.
   assert (Hz : 0 < v_pl v * c) by (apply Qmult_lt_0_compat; assumption).
   cbn [fresh_fun]. unfold ed_of. cbn [ed_eval].
   rewrite (J_ext _ (fun x => J (fun y => v_pe v * (phi (sq (v_sx v)) x * phi (sq (v_sy v)) y)))).
-  - apply J_two; apply sq_pos; lra.
+  - apply J_two; assumption.
   - intro x. apply J_ext. intro y.
     set (K := v_pe v * (phi (sq (v_sx v)) x * phi (sq (v_sy v)) y)).
     transitivity (J (fun z => K * phi (sq (v_pl v * c)) (z - v_mz v))).
-    + apply J_ext. intro z. unfold K. rewrite tri_factor by (try assumption; apply Hsqrt; unfold sq; pos). ring.
-    + transitivity (J (fun t => K * phi (sq (v_pl v * c)) t)).
-      * exact (J_shift (fun t => K * phi (sq (v_pl v * c)) t) (v_mz v)).
-      * apply J_scaled. apply sq_pos; lra.
+    + apply J_ext. intro z. unfold K.
+      rewrite (tri_factor (v_mz v) (v_sx v) (v_sy v) (v_pl v * c) x y z Hx Hy Hz Aa Ab Az). ring.
+    + rewrite (J_lin K (fun z => phi (sq (v_pl v * c)) (z - v_mz v))), Nz. ring.
 Qed.
 
 Theorem cross_section_of_constructed c k a s z : (k = KBiv \/ k = KBeam) -> construct c k a = Some s ->
+  cross_hyps k (a_vals a) z ->
   J (fun x => J (fun y => ed_of (efun s) x y z)) == v_pe (a_vals a) / (c * v_pl (a_vals a)).
 Proof.
-  intros Hk H. destruct (construct_efun c k a s H) as [E Hv]. rewrite E.
+  intros Hk H Hn. destruct (construct_efun c k a s H) as [E Hv]. rewrite E.
   apply cross_section_integral_partial; assumption.
 Qed.
 
-Theorem volume_of_constructed c a s : 0 < c -> construct c KTri a = Some s ->
+Theorem volume_of_constructed c a s : 0 < c -> construct c KTri a = Some s -> volume_hyps c (a_vals a) ->
   J (fun x => J (fun y => J (fun z => ed_of (efun s) x y z))) == v_pe (a_vals a).
 Proof.
-  intros Hc H. destruct (construct_efun c KTri a s H) as [E Hv]. rewrite E.
+  intros Hc H Hn. destruct (construct_efun c KTri a s H) as [E Hv]. rewrite E.
   apply trivariate_volume_integral_partial; assumption.
 Qed.
 
